@@ -94,12 +94,76 @@ def model_part(ck, tier):
     ck.parts["tempering_schedule_independence"]["distinct_terminal_states"] = len(terms)
     if len(terms) != 1:
         ck.violation("spec: ScheduleIndependence (one terminal state for fixed seeds)", {"terminal_states": len(terms)}, site="spec")
-    for mod in ("MC_AdvanceArith", "MC_TightPairs"):
-        r = run_tlc(mod, timeout=900)
-        if r.violated:
-            ck.violation("spec: %s %s" % (mod, r.violated), {"violated": r.violated}, site="spec")
-        must_pass(r, mod)
-        ck.tlc(r, mod)
+    r = run_tlc("MC_AdvanceArith", timeout=900)
+    if r.violated:
+        ck.violation("spec: AdvanceArith %s" % r.violated, {"violated": r.violated}, site="spec")
+    must_pass(r, "MC_AdvanceArith")
+    ck.tlc(r, "MC_AdvanceArith")
+    pairs_part(ck, tier)
+
+
+class _PairStub:
+    """carrier for the two attributes tight_pairs / uniform_pairs read; the METHODS are the real ones"""
+
+    def __init__(self, n, order):
+        self.N_chains = n
+        self.rng = self
+        self.order = order
+
+    def shuffle(self, x):
+        # put the leftovers in the order TLC chose: pairs are taken as (x[0], x[1]), (x[2], x[3]), ...
+        want = [v for v in self.order if v in list(x)] + [v for v in list(x) if v not in self.order]
+        for i, v in enumerate(want):
+            x[i] = v
+
+
+def pairs_part(ck, tier):
+    """TightPairs.tla: every outcome of the as-built pairing strategy; each is driven through the real tight_pairs"""
+    import inference.mcmc.parallel as par
+    maxc = 8 if tier == "quick" else 10
+    r = run_tlc("MC_TightPairs", cfg_text="SPECIFICATION Spec\nCONSTANTS MaxChains = %d\nINVARIANT PairsDisjoint\nINVARIANT AtMostHalf\n"
+                                          "INVARIANT Export\nCHECK_DEADLOCK FALSE\n" % maxc, timeout=1200)
+    if r.violated:
+        ck.violation("spec: TightPairs %s" % r.violated, {"violated": r.violated}, site="spec")
+    must_pass(r, "MC_TightPairs")
+    ck.tlc(r, "tight_pairs_model")
+    real_choice = par.choice
+    seen = set()
+    try:
+        for b in r.printed:
+            key = (b["n"], json.dumps(b["picks"]), json.dumps(b["lpairs"]))
+            if key in seen:
+                continue
+            seen.add(key)
+            picks = [tuple(p) for p in b["picks"]]
+            it = iter(picks)
+
+            def scripted(options, it=it):
+                want = next(it, None)
+                return want if want in options else options[0]
+            par.choice = scripted
+            order = [v for p in b["lpairs"] for v in p]
+            stub = _PairStub(b["n"], order)
+            try:
+                got = par.ParallelTempering.tight_pairs(stub)
+            except Exception as ex:
+                ck.violation("tight_pairs raised", {"n": b["n"], "picks": picks, "error": repr(ex)}, site="ParallelTempering.tight_pairs")
+                continue
+            got = sorted((int(a), int(c)) for a, c in got)
+            want = sorted(tuple(p) for p in b["pairs"])
+            flat = [v for p in got for v in p]
+            ck.case(("pairs",) + key)
+            if len(flat) != len(set(flat)) or any(not (0 <= a < c < b["n"]) for a, c in got):
+                ck.violation("PairsDisjoint: each chain takes part in at most one proposed pair", {"n": b["n"], "scripted_choices": picks,
+                                                                                                   "leftover_order": order, "pairs": got},
+                             site="ParallelTempering.tight_pairs")
+            elif got != want:
+                ck.violation("pairing differs from every outcome of the specification for the same random choices",
+                             {"n": b["n"], "scripted_choices": picks, "leftover_order": order, "pairs": got, "spec": want},
+                             site="ParallelTempering.tight_pairs")
+    finally:
+        par.choice = real_choice
+    ck.count("tight_pairs_model", "outcomes_replayed", len(seen))
 
 
 def impl_part(ck, tier):
